@@ -2,7 +2,8 @@
 (* C20 - the app monitor converges to the target count without overshoot.    *)
 (*                                                                          *)
 (* Model of treadmill.sproc.appmonitor: per monitor a token bucket           *)
-(*   [count, avail, last, policy]   avail in units of 1/3600 token, so that  *)
+(*   [count, avail, last, policy (+ ghosts spent, since)]                    *)
+(*   avail in units of 1/3600 token, so that                                 *)
 (*   rate*dt = 2*count*dt is exact integer arithmetic; cap 2*count*3600      *)
 (* `susp` (until-times), the instances the monitor sees per application      *)
 (* (`view`, a set of [name, n]; n is the sequence number = age order), the   *)
@@ -45,7 +46,8 @@ Configure(a, c, p) ==
   /\ More /\ a \in Apps /\ c \in Counts /\ p \in Policies
   /\ ~(a \in DOMAIN st.mon /\ st.mon[a].count = c /\ st.mon[a].policy = p)
   /\ st' = Step([st EXCEPT !.mon = Put(@, a, [count |-> c, avail |-> CapOf(c, TOK),
-                                             last |-> st.now, policy |-> p])])
+                                             last |-> st.now, policy |-> p,
+                                             spent |-> 0, since |-> st.now])])
 
 DeleteMonitor(a) ==
   /\ More /\ a \in DOMAIN st.mon
@@ -80,44 +82,36 @@ InstancesDeleted(a) ==
 
 (* ---- one evaluation -------------------------------------------------------- *)
 Pre == [now |-> st.now, mon |-> st.mon, susp |-> st.susp, view |-> st.view]
-IsActive(a) == IF "ignore_suspended" \in Defects THEN a \in DOMAIN st.mon ELSE Active(Pre, a)
 
-RefilledMon(a) ==
-  LET m == st.mon[a]
-      r == IF "overfill" \in Defects
-           THEN m.avail + PerSec(m.count, TOK) * (st.now - m.last)
-           ELSE Refilled(m.avail, m.count, m.last, st.now, TOK)
-  IN IF IsActive(a) THEN [m EXCEPT !.avail = r, !.last = st.now] ELSE m
-
-Allowed(a) ==
-  LET m == RefilledMon(a)
-      needed == m.count - Cardinality(st.view[a])
-  IN IF "max_allowed" \in Defects THEN Max2(needed, m.avail \div TOK)
-     ELSE Min2(needed, m.avail \div TOK)
-
-Extra(a) ==
-  LET m == st.mon[a]
-      k == Cardinality(st.view[a]) - m.count
-      pol == IF "lifo_wrong_end" \in Defects
-             THEN (IF m.policy = "lifo" THEN "fifo" ELSE "lifo") ELSE m.policy
-  IN SurplusSet(st.view[a], k, pol)
-
-(* everything reevaluate() does for application a, given the API's answer o *)
+(* everything reevaluate() does for application a (a monitor exists), given the *)
+(* API's answer o                                                               *)
 EvalApp(a, o) ==
-  LET act == IsActive(a)
-      m == RefilledMon(a)
+  LET m0 == st.mon[a]
+      act == "ignore_suspended" \in Defects \/ ~Suspended(st.susp, a, st.now)
+      r == IF "overfill" \in Defects
+           THEN m0.avail + PerSec(m0.count, TOK) * (st.now - m0.last)
+           ELSE Refilled(m0.avail, m0.count, m0.last, st.now, TOK)
+      m == IF act THEN [m0 EXCEPT !.avail = r, !.last = st.now] ELSE m0
       cur == Cardinality(st.view[a])
-      alw == IF act /\ m.count > cur THEN Allowed(a) ELSE 0
+      needed == m.count - cur
+      alw == IF act /\ needed > 0
+             THEN (IF "max_allowed" \in Defects THEN Max2(needed, m.avail \div TOK)
+                   ELSE Min2(needed, m.avail \div TOK))
+             ELSE 0
       mk == IF alw > 0
             THEN <<[app |-> a, op |-> "create", n |-> alw, insts |-> {}, o |-> o]>> ELSE <<>>
       del == act /\ (m.count < cur \/ ("create_and_delete" \in Defects /\ alw > 0 /\ cur > 0))
-      gone == IF m.count < cur THEN Extra(a) ELSE st.view[a]
+      pol == IF "lifo_wrong_end" \in Defects
+             THEN (IF m.policy = "lifo" THEN "fifo" ELSE "lifo") ELSE m.policy
+      gone == IF m.count < cur THEN SurplusSet(st.view[a], cur - m.count, pol) ELSE st.view[a]
       rm == IF del
             THEN <<[app |-> a, op |-> "delete", n |-> 0, insts |-> gone,
                     o |-> IF o = "ok" THEN "ok" ELSE "error"]>> ELSE <<>>
   IN [calls |-> mk \o rm,
-      mon |-> IF alw > 0 /\ o = "ok" /\ "no_deduct" \notin Defects
-              THEN [m EXCEPT !.avail = @ - alw * TOK] ELSE m,
+      mon |-> IF alw > 0 /\ o = "ok"
+              THEN [m EXCEPT !.avail = IF "no_deduct" \in Defects THEN @ ELSE @ - alw * TOK,
+                             !.spent = @ + alw * TOK]
+              ELSE m,
       fail |-> alw > 0 /\ o \in Failing,
       pcreate |-> IF alw > 0 /\ o = "ok" THEN alw ELSE 0,
       pdelete |-> IF del /\ o = "ok" THEN gone ELSE {}]
@@ -174,4 +168,10 @@ InvBudget == BudgetStep(Pre, AllCalls(1, AllOk), TOK, 0) /\ BudgetState(st.mon, 
 InvSurplus == Surplus(Pre, AllCalls(1, AllOk))
 InvNotBoth == NotBoth(AllCalls(1, AllOk))
 InvQuiet == Quiet(Pre, AllCalls(1, AllOk))
+(* the rate budget in closed form, independent of the bucket's bookkeeping     *)
+(* (ghosts spent/since): since its (re)configuration a monitor obtained at     *)
+(* most the full bucket plus what accrued, 2*count per hour                    *)
+InvRate == \A a \in DOMAIN st.mon :
+             st.mon[a].spent <= CapOf(st.mon[a].count, TOK)
+                                + PerSec(st.mon[a].count, TOK) * (st.now - st.mon[a].since)
 =============================================================================
